@@ -20,6 +20,9 @@ type ownCtx struct {
 	memoRet  map[*Fn]int
 	memoElem map[types.Object]int
 	use      ast.Node // the append call currently being judged (for flow-sensitive pointee checks)
+	// strict: the question is not "may this be appended to" but "is this memory disjoint from everybody else's":
+	// a capacity-limited window x[:n:n] is safe to append to, but it still shares its elements
+	strict bool
 }
 
 func newOwnCtx(p *Prog) *ownCtx {
@@ -111,7 +114,7 @@ func (o *ownCtx) owned(f *Fn, e ast.Expr) (bool, string) {
 		}
 		return false, "result of a dynamic call"
 	case *ast.SliceExpr:
-		if x.Slice3 && x.High != nil && x.Max != nil && types.ExprString(x.High) == types.ExprString(x.Max) {
+		if !o.strict && x.Slice3 && x.High != nil && x.Max != nil && types.ExprString(x.High) == types.ExprString(x.Max) {
 			return true, "capacity-limited slice x[:n:n]: an append must reallocate"
 		}
 		return o.owned(f, x.X)
